@@ -52,10 +52,15 @@ def run_identity(name, case, rec, lhs, rhs, loose=False, nt=True):
     g = gen.cyc(case["g"], a.shape, dt)
     rec.nontrivial(nt and a.size >= 2)
     errs = []
+    again = bool(case.get("again"))       # both sides are differentiated a second time with another upstream gradient
+    if again:
+        rec.tag("second_backward_with_another_g")
     for o in (o1, o2):
         try:
             if o.requires_grad:
                 o.backward(Tensor(g.copy()))
+                if again:
+                    o.backward(Tensor((g[..., ::-1] * 0.5 + 0.25).copy() if g.ndim else (g * 0.5 + 0.25).copy()))
             errs.append(None)
         except Exception as e:  # noqa: BLE001
             errs.append(e)
@@ -95,6 +100,7 @@ def common(draw, body):
     c["dtype"] = draw(gen.DTYPES)
     c["g"] = draw(gen.upstream())
     c["layout"] = draw(st.sampled_from(["C", "C", "C", "F", "strided"]))
+    c["again"] = draw(st.sampled_from([False, False, True]))
     return c
 
 
